@@ -87,7 +87,13 @@ impl Scenario {
     pub fn new(name: &str, r: &mut Rng, net: NetID, mult: u128, fee_pool: u128) -> Scenario {
         let db = Database::new(InMemoryCas::default());
         let mut keys = Keys { pk: vec![], sk: vec![] };
-        for _ in 0..3 { let (p, s) = tmelcrypt::ed25519_keygen(); keys.pk.push(p); keys.sk.push(s); }
+        // fixed test keys: every random choice of a scenario derives from the seed
+        for h in ["05faef3074dfb74743ba250b69341a2a0af5b81cbfcce88fff6d2e15f866d06568caf8358d4a4bf5928803611154514e3285c9d4ee885365026b28d1cb08fded",
+                  "616ef1cab2506e2ddf5b85901f439cd5c6dc75f7381f51c00e3a861b04966c80061dbee8658aa5aa63b3215bc541382dd06e8233221691c45a670ba29d2a720d",
+                  "f297e6e5f67ddeb62fcd7226f26bf1aa1a10bfc7752e028e6c852a1f63ae6e41d70c2144dea78b62def2b7d5c2f4c72dff44d2890bc0126d01b8f8e66ebe19c3"] {
+            let sk = Ed25519SK::from_bytes(&hex::decode(h).unwrap()).unwrap();
+            keys.pk.push(sk.to_public()); keys.sk.push(sk);
+        }
         let mut covs = HashMap::new();
         for k in [CovKind::AlwaysTrue, CovKind::SigNew(0), CovKind::SigNew(1), CovKind::SigLegacy(2), CovKind::IndexZero, CovKind::Never,
                   CovKind::Undecodable, CovKind::HeightLock(2), CovKind::ValueAtLeast(1000)] {
@@ -1034,6 +1040,17 @@ impl Scenario {
     fn block_end(&mut self, a: Option<ProposerAction>) -> bool { if self.op_seal(a) != 0 { return false; } self.op_next(); true }
 }
 
+/// a real MelPoW proof (legacy hash); proofs are cached under /verif/.cache/melpow (they are deterministic)
+fn melpow_proof(puzzle: &HashVal, difficulty: usize) -> Vec<u8> {
+    let dir = std::path::PathBuf::from(std::env::var("VERIF_CACHE").unwrap_or("/verif/.cache".into())).join("melpow");
+    let _ = std::fs::create_dir_all(&dir);
+    let f = dir.join(format!("{}-{}.bin", hex::encode(puzzle.0), difficulty));
+    if let Ok(b) = std::fs::read(&f) { return b; }
+    let p = melpow::Proof::generate(&puzzle.0, difficulty, melstf::LegacyMelPowHash).to_bytes();
+    let _ = std::fs::write(&f, &p);
+    p
+}
+
 fn base(name: &str, r: &mut Rng, net: NetID, mult: u128) -> Scenario {
     let mut sc = Scenario::new(name, r, net, mult, 1 << 20);
     sc.fixed_change = Some(sc.at());
@@ -1384,6 +1401,143 @@ pub fn directed(r: &mut Rng) -> Vec<Scenario> {
             sc.op_batch(&[sw]);
             sc.op_seal(None);
         }
+        out.push(sc);
+    }
+    // ERG minting with real proofs: a fast mint raises the recorded speed, the next mint is bounded by it
+    {
+        let mut sc = Scenario::new("d_doscmint", r, NetID::Custom02, 100, 1 << 20);
+        sc.fixed_change = Some(sc.at());
+        let db = Database::new(InMemoryCas::default());
+        let cfg = GenesisConfig { network: NetID::Custom02, init_coindata: CoinData { covhash: sc.at(), value: CoinValue(1 << 50), denom: Denom::Mel, additional_data: Bytes::new() }, stakes: BTreeMap::new(), init_fee_pool: CoinValue(1 << 20), init_fee_multiplier: 100 };
+        sc.mode = Mode::U(cfg.realize(&db));
+        sc.db = db;
+        let d = sc.dump_now(); sc.init = sc.dump_str(&d);
+        let at = sc.at();
+        let g = sc.coin_of(Denom::Mel, 1 << 40).unwrap();
+        let split = sc.mk(r, TxKind::Normal, &[g], vec![sc.cd(at, 1 << 40, Denom::Mel), sc.cd(at, 1 << 40, Denom::Mel), sc.cd(at, 1 << 40, Denom::Mel)], vec![]);
+        sc.op_batch(&[split.clone()]);
+        sc.block_end(None);
+        let coin = |i: u8| (CoinID::new(split.hash_nosigs(), i), CoinDataHeight { coin_data: split.outputs[i as usize].clone(), height: BlockHeight(0) });
+        let mint = |sc: &mut Scenario, r: &mut Rng, c: (CoinID, CoinDataHeight), difficulty: u32, ergs: u128, corrupt: bool| -> Transaction {
+            let hist = melstf::SmtMapping::<InMemoryCas, BlockHeight, Header>::new(sc.ustate().verif_history());
+            let seed = hist.get(&c.1.height).unwrap();
+            let puzzle = tmelcrypt::hash_keyed(seed.hash(), &stdcode::serialize(&c.0).unwrap());
+            let mut proof = melpow_proof(&puzzle, difficulty as usize);
+            if corrupt { let n = proof.len(); proof[n / 2] ^= 1; }
+            let at = sc.at();
+            let mut t = Transaction::new(TxKind::DoscMint);
+            t.outputs = vec![sc.cd(at, ergs, Denom::Erg)];
+            t.data = Bytes::from(stdcode::serialize(&(difficulty, proof)).unwrap());
+            sc.finish_tx(r, t, &[c], 0, 0)
+        };
+        // height 1: difficulty 20, age 1 -> speed 2^20 > 10^6; reward 381
+        let t = mint(&mut sc, r, coin(0), 20, 382, false); sc.op_batch(&[t]);
+        let t = mint(&mut sc, r, coin(0), 20, 381, true); sc.op_batch(&[t]);
+        let t = mint(&mut sc, r, coin(0), 20, 381, false); sc.op_batch(&[t]);
+        sc.block_end(None);
+        // height 2: difficulty 18, age 2, previous speed 2^20 -> reward 10
+        let t = mint(&mut sc, r, coin(1), 18, 11, false); sc.op_batch(&[t]);
+        let t = mint(&mut sc, r, coin(1), 18, 10, false); sc.op_batch(&[t]);
+        // a proof for another coin's puzzle
+        let mut t = mint(&mut sc, r, coin(2), 18, 1, false);
+        let other = mint(&mut sc, r, coin(1), 18, 1, false);
+        t.data = other.data.clone();
+        let t = { let ins = vec![coin(2)]; let mut t2 = Transaction::new(TxKind::DoscMint); t2.outputs = t.outputs.clone(); t2.data = t.data.clone(); sc.finish_tx(r, t2, &ins, 0, 0) };
+        sc.op_batch(&[t]);
+        sc.block_end(None);
+        out.push(sc);
+    }
+    // several requests of the same kind against two pools in one block, in whatever order the hashes give
+    {
+        let mut sc = base("d_two_pools_interleaved", r, NetID::Custom02, 1000);
+        let at = sc.at();
+        let mut want = vec![(1u128 << 45, Denom::Mel); 12];
+        want.extend(vec![(1u128 << 42, Denom::Sym); 6]);
+        want.extend(vec![(1u128 << 42, Denom::Erg); 6]);
+        let f = sc.fund(r, &want);
+        sc.op_batch(&[f.clone()]);
+        sc.block_end(None);
+        let fc = |i: u8| (CoinID::new(f.hash_nosigs(), i), CoinDataHeight { coin_data: f.outputs[i as usize].clone(), height: BlockHeight(0) });
+        // requests of one kind against two pools interleave in txhash order (retry with another nonce otherwise)
+        let interleaved = |txs: &[Transaction]| -> bool {
+            let mut v: Vec<(HashVal, Vec<u8>)> = txs.iter().map(|t| (t.hash_nosigs().0, t.data.to_vec())).collect();
+            v.sort();
+            let mut keys: Vec<Vec<u8>> = v.into_iter().map(|(_, k)| k).collect();
+            keys.dedup();
+            let n = keys.len();
+            keys.sort(); keys.dedup();
+            keys.len() < n
+        };
+        let deposit = |sc: &mut Scenario, r: &mut Rng, mel: (CoinID, CoinDataHeight), oi: u8, d: Denom, nonce: u8| -> Transaction {
+            let key = PoolKey::new(Denom::Mel, d);
+            let (mut l, rr) = if key.left() == Denom::Mel { (sc.cd(at, 1 << 40, Denom::Mel), sc.cd(at, 1 << 40, d)) } else { (sc.cd(at, 1 << 40, d), sc.cd(at, 1 << 40, Denom::Mel)) };
+            l.additional_data = Bytes::from(vec![nonce]);
+            sc.mk(r, TxKind::LiqDeposit, &[mel, fc(oi)], vec![l, rr, sc.cd(at, (1 << 42) - (1 << 40), d)], key.to_bytes().to_vec())
+        };
+        // four deposits per pool (one pool per block), each much larger than the built-in liquidity nobody owns
+        let deps: Vec<Transaction> = (0..4u8).map(|i| deposit(&mut sc, r, fc(i), 12 + i, Denom::Sym, 0)).collect();
+        sc.op_batch(&deps);
+        sc.block_end(None);
+        let deps: Vec<Transaction> = (0..4u8).map(|i| deposit(&mut sc, r, fc(4 + i), 18 + i, Denom::Erg, 0)).collect();
+        sc.op_batch(&deps);
+        sc.block_end(None);
+        // six swaps alternating between the two pools
+        let mels: Vec<(CoinID, CoinDataHeight)> = sc.wallet().coins.into_iter().filter(|(_, c)| c.coin_data.denom == Denom::Mel && c.coin_data.covhash == at && c.coin_data.value.0 >= 1 << 40).collect();
+        let mut swaps = vec![];
+        for nonce in 0..32u8 {
+            swaps.clear();
+            for i in 0..6usize.min(mels.len()) {
+                let d = if i % 2 == 0 { Denom::Sym } else { Denom::Erg };
+                let mut o = sc.cd(at, 1000 + i as u128 * 77, Denom::Mel);
+                o.additional_data = Bytes::from(vec![nonce]);
+                let t = sc.mk(r, TxKind::Swap, &[mels[i].clone()], vec![o], PoolKey::new(Denom::Mel, d).to_bytes().to_vec());
+                swaps.push(t);
+            }
+            if interleaved(&swaps) { break; }
+        }
+        sc.op_batch(&swaps);
+        sc.block_end(None);
+        // two of the four holders of each pool withdraw everything they hold
+        let mut ws = vec![];
+        let mels: Vec<(CoinID, CoinDataHeight)> = sc.wallet().coins.into_iter().filter(|(_, c)| c.coin_data.denom == Denom::Mel && c.coin_data.covhash == at && c.coin_data.value.0 >= 1 << 40).collect();
+        for nonce in 0..32u8 {
+            ws.clear();
+            let mut mi = 0;
+            for d in [Denom::Sym, Denom::Erg] {
+                let key = PoolKey::new(Denom::Mel, d);
+                let liq = key.liq_token_denom();
+                let holders: Vec<(CoinID, CoinDataHeight)> = sc.wallet().coins.into_iter().filter(|(_, c)| c.coin_data.denom == liq && c.coin_data.value.0 > 4).collect();
+                for h in holders.into_iter().take(2) {
+                    if mi >= mels.len() { break; }
+                    let mut t = Transaction::new(TxKind::LiqWithdraw);
+                    let mut o = sc.cd(at, h.1.coin_data.value.0, liq);
+                    o.additional_data = Bytes::from(vec![nonce]);
+                    t.outputs = vec![o];
+                    t.data = key.to_bytes();
+                    let mut t = sc.finish_tx(r, t, &[mels[mi].clone(), h.clone()], 0, 0);
+                    mi += 1;
+                    if t.outputs.len() > 1 { let ch = t.outputs.pop().unwrap(); t.fee = CoinValue(t.fee.0 + ch.value.0); }
+                    ws.push(t);
+                }
+            }
+            if interleaved(&ws) { break; }
+        }
+        sc.op_batch(&ws);
+        sc.block_end(None);
+        // two more deposits per pool in one block
+        let mut deps = vec![];
+        let mels: Vec<(CoinID, CoinDataHeight)> = sc.wallet().coins.into_iter().filter(|(_, c)| c.coin_data.denom == Denom::Mel && c.coin_data.covhash == at && c.coin_data.value.0 >= 1 << 41).collect();
+        for nonce in 0..32u8 {
+            deps.clear();
+            for i in 0..4u8.min(mels.len() as u8) {
+                let d = if i % 2 == 0 { Denom::Sym } else { Denom::Erg };
+                deps.push(deposit(&mut sc, r, mels[i as usize].clone(), if i % 2 == 0 { 16 + i / 2 } else { 22 + i / 2 }, d, nonce));
+            }
+            if interleaved(&deps) { break; }
+        }
+        if interleaved(&deps) && interleaved(&swaps) && interleaved(&ws) { sc.bump("two_pools_all_interleaved"); }
+        sc.op_batch(&deps);
+        sc.block_end(None);
         out.push(sc);
     }
     // F25: a pool created with an empty side, then a second deposit
